@@ -30,6 +30,20 @@ peak function, the response-history stores and the `return`:
     rows(zeros((n, H))) = n; reductions in method or function form; `(m).nonzero()[0]`, `np.nonzero(m)[0]`, `np.where(m)[0]`,
     `np.flatnonzero(m)` select by the mask m; `.T`, `np.transpose`, `.reshape`, `.ravel` do not change an element-wise value.
 
+  * effects are followed, or the target becomes Unknown (pass 4): `np.f(x, y, out=T)` / `T.fill(v)` / `np.copyto(T, v)` store into what T denotes - an
+    array object, a row / entry of one (`for row in A:`, `h = d["k"]`: a *view*, also through `T[...] = v` and `T op= v`), a local bound to an array object
+    (`x = X`, `for x in (X, Y):`), or a local that holds a value (every local bound to the very same value follows); `A[mask]` / `A[index vector]` is a copy:
+    what is written through it is lost, as in numpy; an index whose kind is not known stores Unknown; list.append / extend / insert, dict.update / setdefault
+    on displays and tables; a name that is only ever written as a whole (`X[...] = v`) is an ordinary local;
+  * function values: lambdas (also as entries of local and module-level tables), nested functions (closures over the defining scope, evaluated where
+    called), functools.partial; `*display` / `**table` in calls of helpers; comprehensions, `enumerate` / `zip` / `.items()` over displays and tables are
+    enumerated, loops over displays are executed element by element; `match` statements and chained comparisons are if / and chains; methods, indexing,
+    `in`, `%` and f-strings on string *literals* with constant arguments are computed; `x is None` is decided for numbers, displays, functions, arrays,
+    arithmetic; True / False in arithmetic are 1 / 0; ufunc spellings of the operators, floor / ceil (= -floor(-x)) / `//`, np.full / np.tile / np.take,
+    `X[i, :]`, `X[:1]` have one canonical value each;
+  * `explore()` never takes an undecided test both ways when its value is Unknown or built from literals only (one way is infeasible and the evaluator does
+    not know which): the evaluation is refused (exit 2) instead of judging a path that cannot occur.
+
 Nothing of pyyeti is imported or executed."""
 from __future__ import annotations
 
